@@ -1,7 +1,7 @@
 CONSTANTS
   Part = "simple"
   NI = 2
-  MaxRep = 3
+  MaxRep = 4
   MaxN = 7
   NKeys = 1
 INIT Init
